@@ -21,7 +21,18 @@ def check(run):
         for n in sizes:
             for noisy in (False, True):
                 for _ in range((3 if n <= 10 else 1) if thorough else 2):
-                    cases.append(design.gen_design(rnd, kind, n, rnd.randint(0, 3), rnd.randint(1, max(1, n // 2)), noisy))
+                    dsg = design.gen_design(rnd, kind, n, rnd.randint(0, 3), rnd.randint(1, max(1, n // 2)), noisy)
+                    if rnd.random() < 0.5:
+                        extra = {k: dsg[k] for k in ('gradOnly', 'conv', 'noisy')}
+                        base = {k: v for k, v in dsg.items() if k not in extra}
+                        for _try in range(20):        # any list order whose first LISTED vertex (the anchor) is a pose: a fixed point alone leaves a gauge freedom
+                            dsg, _ = GC.permute(base, rnd)
+                            if dsg['verts'][0]['k'] == kind:
+                                break
+                        else:
+                            dsg = base
+                        dsg.update(extra)
+                    cases.append(dsg)
     old = EC.headroom_class
     EC.headroom_class = lambda c: (id(c),)
     try:
@@ -57,8 +68,8 @@ def check(run):
             truth = [v.pose.copy() for v in g._vertices]
             # initial guess inside the calibrated neighbourhood: translation <= 0.3 per axis, rotation <= 0.15 rad
             for j, v in enumerate(g._vertices):
-                if j == 0:
-                    continue
+                if j == 0 or v.fixed:
+                    continue            # anchors (the first listed vertex, fixed landmarks) stay at their true position
                 k = B.KIND_OF[type(v.pose)]
                 d = [rnd.uniform(-0.3, 0.3) for _ in range(B.DIM[k])]
                 if k == 'SE2':
